@@ -237,15 +237,22 @@ var countAt = map[string]int{"trun": 4, "stts": 4, "ctts": 4, "stsc": 4, "stco":
 // declares (a 600-byte upload with trun.sample_count = 2^32-1 costs the receiver 64 GB). Declared counts above 10^6 are
 // cut to 10^6; the number of cut fields is counted.
 func clampCounts(b []byte) int {
-	var bs []box
-	walk(b, 0, &bs)
+	// The decoder does not follow declared sizes the way a structural walk would (known box types advance by their decoded
+	// size), so every occurrence of a table box type in the body is treated as a box header, wherever it stands.
 	cut := 0
-	for _, x := range bs {
-		off, ok := countAt[x.typ]
-		if !ok || x.size < x.hdr+off+4 {
+	for q := 4; q+4 <= len(b); q++ {
+		off, ok := countAt[string(b[q:q+4])]
+		if !ok {
 			continue
 		}
-		p := x.off + x.hdr + off
+		hdr := 8
+		if binary.BigEndian.Uint32(b[q-4:]) == 1 {
+			hdr = 16 // 64-bit size follows the type
+		}
+		p := q - 4 + hdr + off
+		if p+4 > len(b) {
+			continue
+		}
 		if binary.BigEndian.Uint32(b[p:]) > 1000000 {
 			binary.BigEndian.PutUint32(b[p:], 1000000)
 			cut++
